@@ -48,7 +48,7 @@ CHECKS = {
          "Finite domain enumerated completely on every run (exhaustive: true): 651 x 128-bit Lemire entries, exponent formula, small integer/float tables, 5^135, Bellerophon tables, pow_fast_path, libm pow, integer powers via public routes.",
          "Values are read from the compiled crate, not from source text; definitions re-derived from the generator scripts' closed forms. The 32-bit-limb copy of 5^135 is checked under Miri (i686).", "DESIGN.md section 2, C14", "mlv"),
  "C15": ("counting global allocator around each parse_float call on generated big-integer-path inputs, with a positive control in the alloc configurations",
-         "Zero-allocation contract observed per call in the 4 configurations without alloc.",
+         "Zero-allocation contract observed per call in the 4 configurations without alloc, through slice and filter iterators, in an optimised (release) and a lightly optimised (dbgchk) build.",
          "Allocation on a path no generated input takes is not observed.", "DESIGN.md section 2, C15", "mlv"),
  "C16": ("differential property-based testing over iterator shapes, buffer addresses, call histories with stack poisoning, and 16 concurrent threads",
          "Purity checked against the baseline slice-iterator call in all configurations.",
